@@ -384,6 +384,18 @@ def wrap_still_whole(wrapped_recipe):
     return False
 
 
+def enclosing_group_has_boxed_effect(recipe, name, inside=False):
+    """is the node called `name` inside a group that carries an enabled gradient / pattern overlay (laid out over the group's box)?"""
+    for n in recipe:
+        if n.get("name") == name:
+            return inside
+        if n["t"] == "group":
+            here = inside or any(k in ("gradient", "pattern") for k in enabled_effects(n))
+            if any(m.get("name") == name for m in cc.walk(n["children"])):
+                return enclosing_group_has_boxed_effect(n["children"], name, here)
+    return False
+
+
 def has_fx(doc):
     return any(n["t"] in ("fill", "adjustment") or n.get("effects") for n in cc.walk(doc["recipe"]))
 
@@ -522,6 +534,11 @@ def report(ctx, task, res):
         t2, r = task, res
     import comp_fx
     feats = cc.feature_sig(base_doc(t2), sorted(comp_fx.fx_features(t2["doc_t"])))
+    if law["kind"] == "noop" and law["noop"] != "hidden" and enclosing_group_has_boxed_effect(t2["doc_t"]["recipe"], "noop"):
+        # root cause outside the compositing arithmetic: the box of a group is the union of the RECTANGLES of its visible
+        # children, and a gradient (or pattern) overlay of the group is laid out over that box - a transparent / outside /
+        # masked-out / zero-opacity / adjustment layer inside the group moves the gradient
+        feats = "gradient-overlay-on-enclosing-group"
     if t2["doc_t"]["mode"] == "CMYK" and set(cc.blend_modes(t2["doc_t"])) & set(cc.NONSEP_UP):
         # root cause outside the compositor: the CMYK wrapper of the non-separable blend functions returns values
         # outside [0,1] (known findings of C12), which breaks hypothesis BOk of the theorems
@@ -530,6 +547,11 @@ def report(ctx, task, res):
         sig = f"{law_prefix(law)}/exception/{r['error']['type']}/{feats}"
         ctx.fail(sig, f"the compositor raises {r['error']['type']} ({r['error']['msg']}) at {r['error']['where']}", law_json(t2),
                  r["error"], "the same composite as for the related input")
+    elif r["mismatch"] and feats == "gradient-overlay-on-enclosing-group":
+        sig = "C13/noop/box-of-enclosing-group/gradient-overlay"
+        ctx.fail(sig, f"a {law['noop']} layer inserted into a group that carries a gradient overlay changes the composite: the overlay is laid "
+                 "out over the group's box, which the inserted layer's rectangle extends", law_json(t2), r["mismatch"],
+                 "the composite of the document without the layer")
     elif r["mismatch"]:
         sig = f"{law_prefix(law)}/{feats}/{r['mismatch']['what']}"
         ctx.fail(sig, f"{law['kind']} law violated by the real compositor ({r['mismatch']['what']})", law_json(t2), r["mismatch"],
